@@ -337,6 +337,24 @@ def probe_table(ctx, kind, n):
         e3 = float(np.abs(gram - np.eye(len(irr))).max())
         if e3 > 1e-6:
             ctx.fail('irrep:characters', f'{name}: characters of the blocks are not orthonormal (err {e3:.2e}): not irreducible / repeated', dict(constructor=kind, n=n, err=e3)); return
+        # the hypotheses of `sum_sq_dims_eq_order` / `fourier_intertwines`: F[(i,a,b), g] = sqrt(d_i/N) rho_i(g)[a,b] is unitary on
+        # both sides and intertwines the left regular representation with  (+)_i rho_i (x) 1_{d_i}
+        F = np.concatenate([x.reshape(N, -1).T * np.sqrt(x.shape[1] / N) for x in irr], axis=0)
+        r1 = float(np.abs(F @ F.conj().T - np.eye(F.shape[0])).max())
+        r2 = float(np.abs(F.conj().T @ F - np.eye(N)).max())
+        hs = range(N) if N <= 24 else sorted({ctx.rng.randrange(N) for _ in range(12)})
+        r3 = 0.0
+        for hh in hs:
+            D = np.zeros((F.shape[0], F.shape[0]), dtype=F.dtype)
+            o = 0
+            for x in irr:
+                d = x.shape[1]
+                D[o:o + d * d, o:o + d * d] = np.kron(x[hh], np.eye(d)); o += d * d
+            r3 = max(r3, float(np.abs(F @ L[hh] - D @ F).max()))
+        ctx.extra['irrep_regular_equiv_residual'] = max(ctx.extra.get('irrep_regular_equiv_residual', 0.0), r1, r2, r3)
+        if max(r1, r2, r3) > TOL_IRREP:
+            ctx.fail('irrep:regular-equivalence', f'{name}: the blocks do not assemble to a unitary equivalence with the left regular representation '
+                     f'(|FF^+-1|={r1:.2e}, |F^+F-1|={r2:.2e}, |F L(h) - (+)rho(h)(x)1 F|={r3:.2e})', dict(constructor=kind, n=n, dims=dims, residuals=[r1, r2, r3])); return
         ctx.probe_ok(('irrep', name))
         ctx.count('probe-irrep')
 
@@ -412,7 +430,7 @@ def probe(ctx):
                 ctx.fail('tableaux:' + bad[0], f'get_all_young_tableaux({s}): {bad[0]} {bad[1]}', dict(shape=s, what=bad[0], witness=bad[1]))
             else:
                 ctx.probe_ok(('tab', tuple(s)))
-    ctx.assumptions.append('irreducible blocks: np.linalg.eigh contract; unitarity/homomorphism tolerance 1e-8 (measured max error %.1e), character orthonormality 1e-6' % ctx.extra.get('irrep_max_err', 0.0))
+    ctx.assumptions.append('irreducible blocks: np.linalg.eigh contract; unitarity/homomorphism tolerance 1e-8 (measured max error %.1e), character orthonormality 1e-6; hypotheses of sum_sq_dims_eq_order (F unitary on both sides, intertwining) measured residual %.1e < 1e-8' % (ctx.extra.get('irrep_max_err', 0.0), ctx.extra.get('irrep_regular_equiv_residual', 0.0)))
 
 
 def search(ctx, hints):
